@@ -355,7 +355,7 @@ pub fn cert(a: &Args) -> Report {
   let p = p_big();
   for g in 0..groups {
     // every threshold 2, 3, 4, ... is certified in turn (a dealing bug may depend on t mod k)
-    let t: u32 = if a.flag("sweep") { 2 + (g as u32) } else { match g % 5 { 0 => 2, 1 => 3, 2 => maxt, _ => rng.gen_range(2..=maxt) } };
+    let t: u32 = if a.flag("sweep") { a.u64("mint", 2) as u32 + (g as u32) } else { match g % 5 { 0 => 2, 1 => 3, 2 => maxt, _ => rng.gen_range(2..=maxt) } };
     if t > maxt {
       break;
     }
